@@ -11,7 +11,7 @@ INTERACTION_MODEL = """
 #include <stdlib.h>
 enum { IA_scattered = 0, IA_absorbed = 1, IA_unchanged = 2, IA_failed = 3 };   /* Interaction::Action (bound) */
 #define INVALID_ID ((size_type)-1)
-typedef struct { real_type v[3]; } Real3;
+typedef real_type Real3;    /* directions abstracted to one component (their values are outside this unit; arrays inside returned structs stall dfcc) */
 typedef struct { size_type particle_id; real_type energy; Real3 direction; } Secondary;
 typedef struct { Secondary* ptr; size_type size; } SpanSecondary;
 typedef struct { real_type energy; Real3 direction; SpanSecondary secondaries; real_type energy_deposition; int action; } Interaction;
@@ -20,19 +20,22 @@ unsigned g_draws;                 /* ghost: RNG-consuming calls made */
 Secondary* g_buf; size_type g_cap; size_type g_requested;   /* ghost: the secondary buffer the allocator hands out (or not), what was asked for */
 bool g_alloc_ok;                  /* ghost: whether the allocation succeeds (any) */
 size_type g_k; Secondary g_old;   /* ghost witness element of the buffer (frame) */
-/* StackAllocator<Secondary>::operator() (contract enforced in c16_alloc): null, or `count` default-initialised secondaries */
-Secondary* ALLOC_call(size_type count)
-__CPROVER_requires(count > 0)
-__CPROVER_assigns(g_requested)
-__CPROVER_ensures(g_requested == count && (g_alloc_ok && count <= g_cap ? __CPROVER_return_value == g_buf : __CPROVER_return_value == 0))
-;
+/* StackAllocator<Secondary>::operator() (contract enforced in c16_alloc): null, or `count` default-initialised secondaries.
+   The contract is deterministic given the ghost choice g_alloc_ok, so it is encoded as a function (assert precondition, return the value). */
+static Secondary* ALLOC_call(size_type count)
+{
+    __CPROVER_assert(count > 0, "ALLOC_call.precondition: count > 0");
+    g_requested = count;
+    if (g_alloc_ok && count <= g_cap) return g_buf;
+    return 0;
+}
 """
 
 
 def interaction_factories(ctx):
-    ff = ctx.func(INT, r"CELER_FUNCTION Interaction Interaction::from_failure\(\)", [Rule(r"Interaction result;", "Interaction result = {0, {{0, 0, 0}}, {0, 0}, 0, IA_scattered};", 1, note="default member initializers"), Rule(r"Action::(\w+)", r"IA_\1", "+", note="enum")], name="Interaction::from_failure")
+    ff = ctx.func(INT, r"CELER_FUNCTION Interaction Interaction::from_failure\(\)", [Rule(r"Interaction result;", "Interaction result = {0, 0, {0, 0}, 0, IA_scattered};", 1, note="default member initializers"), Rule(r"Action::(\w+)", r"IA_\1", "+", note="enum")], name="Interaction::from_failure")
     fa = ctx.func(INT, r"CELER_FUNCTION Interaction Interaction::from_absorption\(\)", [
-        Rule(r"Interaction result;", "Interaction result = {0, {{0, 0, 0}}, {0, 0}, 0, IA_scattered};", 1, note="default member initializers"),
+        Rule(r"Interaction result;", "Interaction result = {0, 0, {0, 0}, 0, IA_scattered};", 1, note="default member initializers"),
         Rule(r"#if CELERITAS_DEBUG.*?#endif", "", 1, flags=16, note="`#if CELERITAS_DEBUG` block dropped (CELERITAS_DEBUG == 0)"),
         Rule(r"zero_quantity\(\)", "0", "*", note="Quantity zero"), Rule(r"Action::(\w+)", r"IA_\1", "+", note="enum")], name="Interaction::from_absorption")
     return ("static Interaction Interaction_from_failure(void)\n{" + ff.body + "}\nstatic Interaction Interaction_from_absorption(void)\n{" + fa.body + "}\n")
@@ -123,7 +126,7 @@ void h_lpe(void)
 
 
 UNITS = [
-    Unit("c04_livermore_pe", build_livermore, "h_lpe", enforce="LPE_call", replace=["ALLOC_call", "LPE_sample_subshell", "LPE_binding_energy", "LPE_sample_direction", "RELAX_sample"], timeout=600, object_bits=10, backend=["sat", "cvc5"],
+    Unit("c04_livermore_pe", build_livermore, "h_lpe", enforce="LPE_call", replace=["LPE_sample_subshell", "LPE_binding_energy", "LPE_sample_direction", "RELAX_sample"], timeout=600, object_bits=10, backend=["sat", "cvc5"],
          must_have=[r"LPE_call.postcondition", r"celer_assert", r"celer_ensure", r"ALLOC_call.precondition", r"RELAX_sample.precondition"], checks=["--bounds-check", "--pointer-check"],
          assumptions=["subshell sampling returns a shell with binding energy <= photon energy or none (cross-section data, assumed)", "atomic relaxation emits <= max_secondaries secondaries whose total energy is <= the binding energy (assumed contract of AtomicRelaxation)", "direction sampling not verified"],
          note="LivermorePEInteractor: explicit failure with zero draws and nothing written when storage is exhausted; otherwise absorbed, E = (E-B) electron + (B-R) deposit + R relaxation (or full local deposit when no shell is sampled); deposit >= 0; defined particle id"),
